@@ -181,10 +181,60 @@ def parse_props(pid):
     return re.findall(r'^(?:Theorem|Example) (\S+)', txt, re.M)
 
 
+FORBIDDEN = re.compile(r'\b(Admitted|admit|Axiom|Axioms|Parameter|Parameters|Conjecture|Conjectures|bypass_check)\b|'
+                       r'Admit\s+Obligations|Unset\s+Guard\s+Checking|Unset\s+Positivity\s+Checking|Unset\s+Universe\s+Checking|'
+                       r'type-in-type|impredicative-set')
+
+
+def strip_coq_comments(txt):
+    out, depth, i = [], 0, 0
+    while i < len(txt):
+        if txt.startswith('(*', i):
+            depth += 1; i += 2
+        elif txt.startswith('*)', i) and depth:
+            depth -= 1; i += 2
+        else:
+            if depth == 0:
+                out.append(txt[i])
+            i += 1
+    return ''.join(out)
+
+
+def forbidden_gate():
+    """no Admitted / admit / Axiom / Parameter / Conjecture / switched-off kernel checks anywhere in the development
+    (comments are ignored; Variable / Hypothesis are legal inside sections and every section is closed: checked too)"""
+    hits = []
+    for sub in ('lib', 'model', 'proofs', 'props', 'gen'):
+        d = os.path.join(COQ, sub)
+        for fn in sorted(os.listdir(d)) if os.path.isdir(d) else []:
+            if not fn.endswith('.v'):
+                continue
+            txt = strip_coq_comments(open(os.path.join(d, fn)).read())
+            for m in FORBIDDEN.finditer(txt):
+                hits.append('%s/%s: %s' % (sub, fn, m.group(0)))
+            # Variable / Hypothesis outside a section
+            depth = 0
+            for line in txt.splitlines():
+                t = line.strip()
+                if re.match(r'Section\s+\w+\s*\.', t): depth += 1
+                elif re.match(r'End\s+\w+\s*\.', t) and depth: depth -= 1
+                elif re.match(r'(Variable|Variables|Hypothesis|Hypotheses|Context)\b', t) and depth == 0:
+                    hits.append('%s/%s: %s outside a section' % (sub, fn, t.split()[0]))
+    for fn in ('_CoqProject',):
+        p = os.path.join(COQ, fn)
+        if os.path.exists(p) and re.search(r'type-in-type|impredicative-set|-vos\b', open(p).read()):
+            hits.append('_CoqProject: forbidden flag')
+    return hits
+
+
 def prove(pid, timeout=1500):
     """build props/<pid>.vo; returns dict(ok, obligations, discharged, failed, assumptions, log)"""
     names = parse_props(pid)
     thms = [n for n in names]
+    gate = forbidden_gate()
+    if gate:
+        return dict(ok=False, obligations=len(thms), discharged=0, failed=['forbidden construct: ' + g for g in gate[:10]],
+                    assumptions={}, log='', rc=1, errors=['forbidden construct: ' + g for g in gate[:10]])
     rc, log = make(['props/%s.vo' % pid], timeout)
     res = dict(ok=False, obligations=len(thms), discharged=0, failed=[], assumptions={}, log=log[-6000:], rc=rc)
     vo = os.path.join(COQ, 'props', pid + '.vo')
